@@ -4,6 +4,8 @@ import (
 	"bytes"
 	"fmt"
 	"regexp"
+	"runtime"
+	"runtime/debug"
 )
 
 // Engine hist — one long-lived instance, a seeded history of operations, every
@@ -444,9 +446,24 @@ func histWorker(p *histParams, st *Stats) {
 		curProc = &ProcHistory{Tier: p.tier, Shard: p.shard, Of: p.of, Runs: p.runs}
 	}
 	lastRun := -1
+	// Garbage collection is an event the simulator owns here (GC ops inside histories): the
+	// automatic collector is switched off and a collection is forced at fixed run indexes, so
+	// that what sync.Pool caches of the code under test hold at any operation is a function of
+	// the run sequence alone and a replayed sequence sees the same. (A safety valve collects
+	// when the heap exceeds 1.5 GB; it does not fire with the documents generated today.)
+	defer debug.SetGCPercent(debug.SetGCPercent(-1))
+	var ms runtime.MemStats
 	for run := start; run < p.runs; run += p.of {
 		if p.ctl != nil && run > p.ctl.until {
 			break
+		}
+		if (run/p.of)%16 == 0 {
+			runtime.GC()
+		} else if (run/p.of)%4 == 0 {
+			if runtime.ReadMemStats(&ms); ms.HeapAlloc > 1500<<20 {
+				runtime.GC()
+				st.Inc("diag.gc_safety_valve")
+			}
 		}
 		spec := genHistSpec(p, c, run)
 		v := executeSpec(spec, st)
